@@ -99,6 +99,10 @@ func c10Hostile(target string) []c10Doc {
 			d("comments-cdata", c10Rep("<!--", 10000)+c10Rep("<![CDATA[", 5000)+c10Rep("-->", 100)+"<a href=after>"),
 			d("svg-math-nest", c10Rep("<svg><math><mtext><svg><foreignObject><math><mi>", 1500)+"<a href=x>"),
 			d("select-table-nest", c10Rep("<select><table><template><frameset>", 3000)),
+			// srcset / data-srcset values that are not well-formed candidate lists: unbalanced parentheses, commas inside
+			// URLs and descriptors, nothing but separators, descriptors without a URL
+			d("srcset-odd", `<img srcset="/a.jpg (1x"><img srcset="/a.jpg 300w (min-width: 10px"><source data-srcset="/b.jpg (((" srcset=")))"><img data-srcset="( /c.jpg 1x, /d.jpg (2x">`+
+				`<img srcset=",,, ,"><img srcset="1x, 2x"><img srcset="/e,f.jpg 1x,/g.jpg"><source srcset="/h.jpg 1x) , (/i.jpg 2x"><img srcset="`+c10Rep("(", 5000)+`"><img srcset="/j.jpg `+c10Rep("(1x, ", 3000)+`">`),
 		}
 	case "json":
 		return []c10Doc{
